@@ -349,3 +349,7 @@ PROPS['C19'].technique = 'translation validation: differential run of the C++ po
 register(Prop('C20', 'handle table keeps an object alive exactly while referenced', None, None, special=special.c20_special,
               partial='the xorshift full-period claim is a Section hypothesis; the Go memory model (atomics, RWMutex) is represented by atomic blocks',
               rule='disciplined histories of Add/Incref/Decref/Get/Len over up to 8 handles and 8 threads, each under a random schedule replayed on the implementation through yield hooks; all interleavings of small two-owner histories; single-threaded histories with stale handles; race-detector stress'))
+
+register(Prop('C16', 'independent calls are safe to run concurrently', None, None, special=special.c16_special,
+              partial="gfsgen's syntactic effect analysis and the Go memory model are trusted; validated by the race detector on fresh processes",
+              rule='fresh -race processes: 2..64 goroutines each issuing 3..40 random API calls on their own values from a cold start, results compared with a sequential re-run'))
